@@ -40,10 +40,18 @@ class TokGen:
     """renders gen.py expression ASTs to token lists with MINIMAL parentheses (plus random
        redundant ones), and adds purely syntactic variety the AST has no constructor for"""
 
-    def __init__(self, rng, nl_strings=False):
+    def __init__(self, rng, nl_strings=False, p_trailing_comma=0.0):
         self.r = rng
         self.nl_strings = nl_strings
+        self.p_tc = p_trailing_comma
         self.ops = {}
+
+    def tc(self, nonempty):
+        """a trailing comma (the grammar's Comma<E> allows one after the last element)"""
+        if nonempty and self.p_tc and self.r.random() < self.p_tc:
+            self.count("trailing_comma")
+            return [","]
+        return []
 
     def count(self, k):
         self.ops[k] = self.ops.get(k, 0) + 1
@@ -120,7 +128,7 @@ class TokGen:
                 return self.e(x[2], ADD) + ["+" if op == "add" else "-"] + self.e(x[3], MUL), ADD
             if op == "mul":
                 return self.e(x[2], MUL) + ["*"] + self.e(x[3], UNARY), MUL
-            return self.e(x[2], MEMBER) + [".", op, "("] + self.e(x[3], IF) + [")"], MEMBER
+            return self.e(x[2], MEMBER) + [".", op, "("] + self.e(x[3], IF) + self.tc(True) + [")"], MEMBER
         if k == "ext":
             fn, args = x[1], x[2]
             if fn in cedar.METHOD_EXT and args:
@@ -133,7 +141,7 @@ class TokGen:
                 if i:
                     out.append(",")
                 out += self.e(a, IF)
-            return out + [")"], MEMBER
+            return out + self.tc(bool(rest)) + [")"], MEMBER
         if k == "getattr":
             base = self.e(x[1], MEMBER)
             if cedar.is_ident(x[2]) and r.random() < 0.8:
@@ -167,7 +175,7 @@ class TokGen:
                 if i:
                     out.append(",")
                 out += self.e(a, IF)
-            return out + ["]"], PRIMARY
+            return out + self.tc(bool(x[1])) + ["]"], PRIMARY
         if k == "record":
             out = ["{"]
             for i, (kk, v) in enumerate(x[1]):
@@ -176,7 +184,7 @@ class TokGen:
                 out.append(kk if cedar.is_ident(kk) and r.random() < 0.6 else str_tok(r, kk))
                 out.append(":")
                 out += self.e(v, IF)
-            return out + ["}"], PRIMARY
+            return out + self.tc(bool(x[1])) + ["}"], PRIMARY
         raise ValueError(x)
 
 
@@ -254,19 +262,19 @@ def scope_toks(rng, var, template):
     return [var, "==", *ent]
 
 
-def policy_toks(rng, world, depth, nl_strings=False, stats=None):
+def policy_toks(rng, world, depth, nl_strings=False, stats=None, p_trailing_comma=0.0):
     r = rng
-    tg = TokGen(r, nl_strings)
+    tg = TokGen(r, nl_strings, p_trailing_comma)
     toks = []
     for i in range(r.choice([0, 0, 1, 1, 2, 3])):
         key = r.choice(["id", "advice", "note", "a1", "if", "permit", "in", "_x"]) + ("" if i == 0 else str(i))
         toks += ["@", key]
         if r.random() < 0.85:
             toks += ["(", tg.string(r.choice(gen.STRINGS + ["policy number %d" % i, "// not a comment"])), ")"]
-    template = r.random() < 0.2
+    template = r.random() < 0.3
     toks += [r.choice(["permit", "forbid"]), "("]
     toks += scope_toks(r, "principal", template) + [","] + scope_toks(r, "action", False) + [","] + scope_toks(r, "resource", template)
-    toks += [")"]
+    toks += tg.tc(True) + [")"]
     for _ in range(r.choice([0, 1, 1, 1, 2, 3])):
         toks += [r.choice(["when", "unless"]), "{"]
         c = r.random()
